@@ -60,10 +60,29 @@ pub static mut STEP_BUDGET: u32 = 0;
 pub const INMAX: usize = 8;
 pub static mut INPUT: [u8; INMAX] = [0; INMAX];
 pub static mut INPUT_LEN: usize = 0;
-/// how many streams the communicator holds right now (parent ends open)
+/// how many pipes connect parent and child right now: the parent holds its end
+/// AND the child still holds the other one (a pipe whose child end is closed
+/// cannot block the child any more, even if the parent has not closed its end yet)
 pub unsafe fn parent_streams_open() -> usize {
-    (S[IN].used && S[IN].parent_open) as usize + (S[OUT].used && S[OUT].parent_open) as usize + (S[ERR].used && S[ERR].parent_open) as usize
+    (S[IN].used && S[IN].parent_open && S[IN].peer_open) as usize
+        + (S[OUT].used && S[OUT].parent_open && S[OUT].peer_open) as usize
+        + (S[ERR].used && S[ERR].parent_open && S[ERR].peer_open) as usize
 }
+
+/// other live pipes besides stream `s`
+pub unsafe fn other_live_pipes(s: usize) -> usize {
+    let mut n = 0;
+    let mut t = 0;
+    while t < 3 {
+        if t != s && S[t].used && S[t].parent_open && S[t].peer_open {
+            n += 1;
+        }
+        t += 1;
+    }
+    n
+}
+/// content check of written bytes against INPUT (off for inputs longer than INMAX)
+pub static mut INPUT_CHECK: bool = true;
 
 pub fn g(tag: u8, pos: usize) -> u8 {
     tag ^ (pos as u8).wrapping_mul(37)
@@ -109,6 +128,7 @@ pub unsafe fn reset() {
     DEADLINE_SET = false;
     CHILD_MAY_ACT = true;
     LIMIT_SET = false;
+    INPUT_CHECK = true;
     CLOSE_BY_DROP = false;
     IN_BASE = 0;
 }
@@ -241,7 +261,7 @@ pub unsafe fn pipe_read(p: u8, buf: *mut u8, n: usize) -> ssize_t {
         }
         // a blocking read: legitimate only when the child cannot be waiting for the parent on another pipe
         BLOCKING_READS += 1;
-        vcheck!(C01, parent_streams_open() == 1, "C01/no-blocking-read-with-other-streams: a read blocks on an empty pipe while the parent holds other pipes the child may be blocked on");
+        vcheck!(C01, other_live_pipes(s) == 0, "C01/no-blocking-read-with-other-streams: a read blocks on an empty pipe while the parent holds other pipes the child may be blocked on");
         // the child eventually writes or closes
         let k: usize = kani::any();
         kani::assume(k <= XFER_MAX && k <= S[s].cap);
@@ -296,7 +316,7 @@ pub unsafe fn pipe_write(p: u8, buf: *const u8, n: usize) -> ssize_t {
     vcheck!(C01, n <= PIPE_BUF, "C01/write-chunk-at-most-pipe-buf: a write chunk larger than PIPE_BUF can block although poll reported the pipe writable");
     let free = S[IN].cap - S[IN].buffered;
     if n <= PIPE_BUF {
-        vcheck!(C01, free >= n || parent_streams_open() == 1, "C01/write-never-blocks: a write was issued that blocks (pipe lacks room) while the child may be blocked on an output pipe the parent is not reading");
+        vcheck!(C01, free >= n || other_live_pipes(IN) == 0, "C01/write-never-blocks: a write was issued that blocks (pipe lacks room) while the child may be blocked on an output pipe the parent is not reading");
         if free < n {
             // blocks until the child reads: the child eventually does
             let r: usize = kani::any();
@@ -318,8 +338,9 @@ pub unsafe fn pipe_write(p: u8, buf: *const u8, n: usize) -> ssize_t {
     let mut i = 0;
     while i < XFER_LOOP {
         if i < k && i < n {
-            let want_ok = base + i < INPUT_LEN && *buf.add(i) == INPUT[(base + i) % INMAX];
+            let want_ok = !INPUT_CHECK || (base + i < INPUT_LEN && *buf.add(i) == INPUT[(base + i) % INMAX]);
             vcheck!(C02, want_ok, "C02/input-once-in-order: a byte written to the child's stdin is not the next byte of the supplied input");
+            vcheck!(C04, want_ok, "C04/resumes-exactly: across timed-out and resumed reads a byte written to the child's stdin is not the next undelivered byte of the input (re-sent or skipped)");
         }
         i += 1;
     }
